@@ -24,6 +24,8 @@ def check(run: Run) -> None:
     run.rule("R11.5", "finiteness and kind: the coercion return is reached only for NUMBER constraints on str values and, on the float branch, after math.isfinite", 3)
     run.rule("R11.6", "gating: every call of repair(..., fix=True) is control-dependent on the caller's fix/lenient flag; _apply_schema_repairs runs only under `fix and schema is not None`; repair_value(fix=True) has no other caller", 5)
     run.rule("R11.7", "the inline META case-fold of octave_write stores only into an existing META key, only the unique case-insensitive match, and records it in corrections", 3)
+    run.rule("R11.8", "octave_write copies the RepairLog of repair(fix=True) into corrections before any later step that can fail: every path (exception edges included) from the repair call to the write of the file passes the copy", 1)
+    check_write_reports(run, res, "R11.8", None)
 
     mod = run.project.mod("core.repair")
     reach = res.reachable_from([REPAIR_ROOT]) | {fi.fqn for fi in mod.functions.values()}
@@ -386,6 +388,102 @@ def _unique_match(run: Run, fi: FuncInfo, mod) -> None:
         run.instance("R11.4", f"{mod.relpath}:{rn.lineno}", f"{fi.qualname}: exact matches and non-strings return unchanged first", ok=exact_ok and str_ok)
         if not (exact_ok and str_ok):
             run.violation("R11.4", mod, fi.qualname, "exact-match / str guards before case-fold", f"case-fold reachable without the exact-match guard ({exact_ok}) or the isinstance(str) guard ({str_ok})", line=rn.lineno)
+
+
+# ---------------------------------------------------------------- R11.8 / R10.9 (octave_write: what is written vs what is reported)
+def _write_tool_sites(run: Run, res: Resolver):
+    """(function, cfg, repair-call nodes M, write nodes W, written variable, document variable)"""
+    fi = run.project.mod("mcp.write").func("WriteTool.execute")
+    cfg = CFG(fi.node)
+    M, W = [], []
+    written = None
+    docvar = None
+    for n in cfg.nodes:
+        if n.ast is None or n.kind not in ("stmt", "with"):
+            continue
+        for c in walk_no_nested(n.ast):
+            if not isinstance(c, ast.Call):
+                continue
+            if any(k.kind == "repo" and k.name == REPAIR_ROOT for k in res.resolve_call(fi, c)):
+                fixkw = [k.value for k in c.keywords if k.arg == "fix"]
+                if fixkw and isinstance(fixkw[0], ast.Constant) and fixkw[0].value is True:
+                    M.append(n.id)
+                    if c.args and isinstance(c.args[0], ast.Name):
+                        docvar = c.args[0].id
+            if isinstance(c.func, ast.Attribute) and c.func.attr == "write" and len(c.args) == 1 and isinstance(c.args[0], ast.Name) and isinstance(c.func.value, ast.Name):
+                # the file object comes from os.fdopen(...) in an enclosing with
+                cur = getattr(c, "_parent", None)
+                while cur is not None and not isinstance(cur, ast.With):
+                    cur = getattr(cur, "_parent", None)
+                if cur is not None and any("fdopen" in ast.unparse(i.context_expr) for i in cur.items):
+                    W.append(n.id)
+                    written = c.args[0].id
+    if not M or not W or written is None or docvar is None:
+        raise AnalysisError(f"WriteTool.execute: repair call ({len(M)}), temp-file write ({len(W)}) or their variables not found")
+    return fi, cfg, M, W, written, docvar
+
+
+def check_write_reports(run: Run, res: Resolver, rule_log: str | None, rule_emit: str | None) -> None:
+    fi, cfg, M, W, written, docvar = _write_tool_sites(run, res)
+    mod = fi.module
+    if rule_emit:
+        # every non-exceptional path from a document mutation to the write re-emits the written text
+        E = {n.id for n in cfg.nodes if n.kind == "stmt" and isinstance(n.ast, ast.Assign) and any(is_name(t, written) for t in n.ast.targets) and isinstance(n.ast.value, ast.Call) and ast.unparse(n.ast.value.func) == "emit" and n.ast.value.args and is_name(n.ast.value.args[0], docvar)}
+        muts = list(M)
+        for n in cfg.nodes:
+            if n.kind == "stmt" and isinstance(n.ast, ast.Assign) and any(isinstance(t, ast.Subscript) and ast.unparse(t.value) == f"{docvar}.meta" for t in n.ast.targets):
+                muts.append(n.id)
+        from ..pathstate import Explorer
+
+        for m in muts:
+            bad = None
+            ex = Explorer(cfg, relevant=lambda f: False)  # only constant boolean flags matter here (did_repair = True ... if did_repair:)
+            hits = []
+
+            def visit(st, hits=hits):
+                if st[0] in E:
+                    return "prune"
+                if st[0] in W:
+                    hits.append(st)
+                    return "prune"
+                return None
+
+            # the statement right after the mutation usually sets the flag: start the exploration at the mutation itself
+            ex.explore([(m, frozenset(), ())], visit)
+            if hits:
+                bad = ex.path_to(hits[0])
+            run.instance(rule_emit, mod.loc(cfg.nodes[m].ast), f"WriteTool.execute: after `{norm(cfg.nodes[m].ast)[:60]}` every path to the temp-file write re-emits `{written}` from `{docvar}`", ok=bad is None)  # type: ignore[arg-type]
+            if bad is not None:
+                run.violation(rule_emit, mod, fi.qualname, f"stale {written} after {norm(cfg.nodes[m].ast)[:50]}", f"the document is changed by `{norm(cfg.nodes[m].ast)[:60]}` but a path to the write of `{written}` does not re-emit it: the status and corrections describe the repaired document while the file (and canonical_hash) hold the text from before the repair - VALIDATED is reported for text that is INVALID when validated again", path=[cfg.nodes[i].lineno for i in bad if cfg.nodes[i].lineno][:30])  # type: ignore[arg-type]
+    if rule_log:
+        # the repair log is copied into corrections before anything after the repair can fail
+        def copies_log(nn) -> bool:
+            a = nn.ast
+            if a is None:
+                return False
+            if nn.kind == "iter" and ast.unparse(a).endswith(".repairs"):
+                owner = nn.owner
+                return isinstance(owner, ast.For) and any(isinstance(c, ast.Call) and isinstance(c.func, ast.Attribute) and c.func.attr in ("append", "extend") and "corrections" in ast.unparse(c.func.value) for c in ast.walk(owner))
+            if nn.kind == "stmt":
+                return any(isinstance(c, ast.Call) and isinstance(c.func, ast.Attribute) and c.func.attr in ("append", "extend") and "corrections" in ast.unparse(c.func.value) and ".repairs" in ast.unparse(c) for c in ast.walk(a))
+            return False
+        C = {n.id for n in cfg.nodes if copies_log(n)}
+        if not C:
+            run.violation(rule_log, mod, fi.qualname, "repair log -> corrections", "the entries of the RepairLog returned by repair(fix=True) are never copied into corrections")
+        for m in M:
+            bad = None
+            for w in W:
+                for s, lab in cfg.succ[m]:
+                    if lab == "x":
+                        continue  # repair() itself failing: nothing is re-emitted, the file keeps the unrepaired text
+                    if s in C:
+                        continue
+                    p = cfg.all_paths_pass(s, w, lambda nn: nn.id in C, None)
+                    if p is not None:
+                        bad = p
+            run.instance(rule_log, mod.loc(cfg.nodes[m].ast), "WriteTool.execute: after repair(fix=True) the log is copied into corrections before any step that can fail (exception edges included)", ok=bad is None)  # type: ignore[arg-type]
+            if bad is not None:
+                run.violation(rule_log, mod, fi.qualname, "repair log copied after steps that can fail", "after repair(fix=True) a path reaches the write of the file without the RepairLog entries having been copied into corrections (an exception in re-emission or re-validation is swallowed by the best-effort handler first): the file then contains repaired values that no correction reports", path=[cfg.nodes[i].lineno for i in bad if cfg.nodes[i].lineno][:30])
 
 
 def flag_vars(fi, flags) -> set[str]:
